@@ -268,7 +268,7 @@ def set_inputs(engine, block, in_place=False):
 
 def run(ctx):
     fl = import_library()
-    nengines = ctx.scale(300, 4000)
+    nengines = ctx.scale(300, 20000)
     nrows = ctx.scale(15, 24)
     ctx.rule = (
         f"every Engine.process call observed on a ready engine. Workload: {nengines} generated engines (1-3 inputs, 1-2 outputs, 1-2 rule blocks, "
